@@ -207,6 +207,10 @@ func (r *Reconciler) buildStrategyParams(logger logr.Logger, daemonset *datadogh
 		strategyParams.CanaryNodes = daemonset.Status.Canary.Nodes
 		if daemonset.Status.ActiveReplicaSet == replicaset.Name {
 			nodesFilter = strategyParams.CanaryNodes
+		} else if rsStatus == strategy.ReplicaSetStatusCanary {
+			// the canary replica set only manages the canary nodes: the pods on the other nodes are
+			// the active replica set's business, whether or not those nodes fit the canary template
+			nodesFilter = nonCanaryNodeNames(nodeList, strategyParams.CanaryNodes)
 		}
 	}
 
@@ -214,6 +218,21 @@ func (r *Reconciler) buildStrategyParams(logger logr.Logger, daemonset *datadogh
 	strategyParams.NodeByName, strategyParams.PodByNodeName, strategyParams.PodToCleanUp, strategyParams.UnscheduledPods = r.FilterAndMapPodsByNode(logger.WithValues("status", string(rsStatus)), replicaset, nodeList, podList, nodesFilter)
 
 	return strategyParams, nil
+}
+
+func nonCanaryNodeNames(nodeList *strategy.NodeList, canaryNodes []string) []string {
+	isCanaryNode := make(map[string]bool, len(canaryNodes))
+	for _, name := range canaryNodes {
+		isCanaryNode[name] = true
+	}
+	var names []string
+	for _, item := range nodeList.Items {
+		if !isCanaryNode[item.Node.Name] {
+			names = append(names, item.Node.Name)
+		}
+	}
+
+	return names
 }
 
 func (r *Reconciler) applyStrategy(logger logr.Logger, daemonset *datadoghqv1alpha1.ExtendedDaemonSet, now metav1.Time, strategyParams *strategy.Parameters) (*strategy.Result, error) {
